@@ -15,7 +15,7 @@ def run(ctx):
     ss = S.generate(ctx, 12 if ctx.quick else 100, 3 if ctx.quick else 6, max_e=6 if ctx.quick else 8,
                     max_loops=3 if ctx.quick else 5, routings_per_graph=2, scales=(1, 1, 1, Fraction(1, 2 ** 33), 2 ** 30), decouple=0.3, special=("vacuum", "vacuum"))
     ss += S.generate(ctx, 4 if ctx.quick else 25, 2, max_e=10, max_loops=4, routings_per_graph=2,
-                     names=["banana4", "ladder3x", "mercedes", "sunrise"])
+                     names=["banana4", "ladder3x", "mercedes", "sunrise", "sunrise_tadpole", "bubble_chain3"])
     ss += S.generate(ctx, 2 if ctx.quick else 10, 2, max_e=6, max_loops=5, routings_per_graph=2, names=["banana6"])
     # extremely small xi: L matrices with entries far outside [1e-50, 1e50] (any magnitude guard must still give the same momenta)
     ss += S.generate(ctx, 6 if ctx.quick else 30, 4, max_e=5, max_loops=3, routings_per_graph=1, kinds=("tiny_xi",),
@@ -36,6 +36,7 @@ def run(ctx):
             ss.append(s2)
     S.run(ss)
     SC.corr_momenta(ctx, ss)
+    SC.generic_scalar_guard(ctx, ss[:: 7], k=6)
     SC.corr_matrix(ctx, ss)     # the factors Q, Q^-T, L^-1 the momenta are built from: model decomposition on the implementation's L
     for s in ss:
         a, c, r = s["impl"], s["case"], s["routing"]
